@@ -765,6 +765,13 @@ class SynGen(GroupBase):
             return list(set(lst1) & set(lst2))
 
         bus_gen_island = intersect(bus_idx, bus_gen)
+        if len(bus_gen_island) == 0:
+            # no synchronous generator in the island: nothing to monitor
+            self.idx_island = []
+            self.uid_island = []
+            self.delta_addr = np.array([], dtype=int)
+            return
+
         self.idx_island = self.find_idx(keys='bus',
                                         values=bus_gen_island)
         self.uid_island = self.idx2uid(self.idx_island)
